@@ -60,7 +60,13 @@ func StartDeadlockWatch(prop, engine string, quiet time.Duration, exit func()) {
 					continue
 				}
 				st := m[2]
-				if !(strings.HasPrefix(st, "sync.Mutex.Lock") || strings.HasPrefix(st, "sync.RWMutex") || strings.HasPrefix(st, "semacquire")) {
+				// "semacquire" is also the state of sync.WaitGroup.Wait on older
+				// toolchains (netpoll's Serve waits that way for as long as a
+				// poll-mode server runs): only a semaphore wait entered from a
+				// Mutex or RWMutex method counts.
+				onMutex := strings.HasPrefix(st, "sync.Mutex.Lock") || strings.HasPrefix(st, "sync.RWMutex") ||
+					strings.HasPrefix(st, "semacquire") && (strings.Contains(g, "\nsync.(*Mutex).") || strings.Contains(g, "\nsync.(*RWMutex)."))
+				if !onMutex {
 					continue
 				}
 				if strings.Contains(g, "github.com/hslam/rpc.") {
